@@ -1,84 +1,159 @@
-import Emboss.Lemmas.TypesIff
+import Emboss.Lemmas.TypesSub
 namespace Emboss.Types
 
-/-! Positional requirements (`check_types`), spec side.  As for expressions, the relation is
-the one the *code* implements; where the reference / property statement differs the
-difference is a named finding (see Properties/C13.lean). -/
+/-! Positional requirements (`check_types`) and attribute values, spec side.
+`coded = false`: the requirements of the property statement / language reference;
+`coded = true` adds what the code accepts beyond them (ordering on enums inside the
+expressions, `HasType true`; enum values of enum type) — both open findings pinned by
+emboss's own tests. -/
 
-/-- passed parameters, as coded: same arity; where the declared parameter has a value type,
-the argument's type agrees with it in *kind* (`which_type`: any enum for any enum). -/
-def PassedArgsOk : List (Ty × Loc) → List Expr → Prop
-  | tl :: ts, g :: gs =>
-    (tl.1.isValue = false ∨ ∃ τ, HasType true g τ ∧ sameWhich τ tl.1 = true) ∧ PassedArgsOk ts gs
+/-- passed parameters: same arity; where the declared parameter has a value type (integer,
+enum) the argument has exactly that type — for enums: the same enum, module included. -/
+def PassedArgsOk (coded : Bool) : List (Ty × Loc) → List Expr → Prop
+  | tl :: ts, g :: gs => (tl.1.isValue = false ∨ HasType coded g tl.1) ∧ PassedArgsOk coded ts gs
   | [], [] => True
   | _, _ => False
 
-structure PositionsOk (m : Module) : Prop where
+structure PositionsOk (coded : Bool) (m : Module) : Prop where
   /-- field start and size are integers -/
-  locations : ∀ p ∈ m.locations, HasType true p.1 .int ∧ HasType true p.2 .int
-  /-- AS CODED: every sub-expression of an array length is an integer (documented: the length is) -/
-  arrays : ∀ a ∈ m.arrays, ∀ s ∈ subexprs a, HasType true s .int
+  locations : ∀ p ∈ m.locations, HasType coded p.2.1 .int ∧ HasType coded p.2.2 .int
+  /-- array lengths are integers -/
+  arrays : ∀ a ∈ m.arrays, HasType coded a.2 .int
   /-- existence conditions are booleans -/
-  conds : ∀ c ∈ m.conds, HasType true c .bool
+  conds : ∀ c ∈ m.conds, HasType coded c.2 .bool
+  /-- enum values are integers (AS CODED ALSO: expressions of an enum type, `TEN = TEN2`) -/
+  enumValues : ∀ v ∈ m.enumValues,
+    HasType coded v.2 .int ∨ (coded = true ∧ ∃ n, HasType coded v.2 (.enum n))
   /-- runtime parameters are integers or enums (and not arrays) -/
   params : ∀ p ∈ m.params, p.ty = .int ∨ ∃ n, p.ty = .enum n
-  passed : ∀ p ∈ m.passed, PassedArgsOk p.expected p.given
+  passed : ∀ p ∈ m.passed, PassedArgsOk coded p.expected p.given
 
 /-- the expressions `check_types` looks at -/
-def inspected (m : Module) : List Expr :=
-  m.locations.flatMap (fun p => [p.1, p.2]) ++ m.arrays.flatMap subexprs ++ m.conds ++
-    m.passed.flatMap (·.given)
+def inspected (m : Module) : List FExpr :=
+  m.locations.flatMap (fun p => [(p.1, p.2.1), (p.1, p.2.2)]) ++ m.arrays ++ m.conds ++
+    m.enumValues ++ m.passed.flatMap (fun p => p.given.map (fun g => (p.file, g)))
 
-/-- `annotate_types` raised no objection to the expression (it has *some* type) -/
-def Typed (e : Expr) : Prop := (tc e).errs = [] ∧ (tc e).crash = none
+/-- the expressions the attribute validators look at -/
+def attrExprs : List Attr → List FExpr
+  | [] => []
+  | a :: as => (match a.val with | .expr e => [(a.file, e)] | .str _ => []) ++ attrExprs as
 
-instance (e : Expr) : Decidable (Typed e) := by unfold Typed; infer_instance
+/-- every position's expression is one of the module's top-level expressions (what
+`annotate_types` traverses): guaranteed by the IR's shape. -/
+def Module.wf (m : Module) : Prop := ∀ e ∈ inspected m ++ attrExprs m.attrs, e ∈ m.exprs
 
-theorem wantTy_nil {want : Ty} {c : Cls} {e : Expr} (h : Typed e) :
-    wantTy want c e = [] ↔ HasType true e want := by
+/-- `annotate_types` raised no objection to the expression -/
+def Typed (e : FExpr) : Prop := (tc e.1 e.2).errs = []
+
+instance (e : FExpr) : Decidable (Typed e) := by unfold Typed; infer_instance
+
+theorem typed_hasType {e : FExpr} (h : Typed e) : HasType true e.2 (tc e.1 e.2).ty :=
+  (tc_iff e.2 e.1 _).1 ⟨h, rfl⟩
+
+theorem hasType_ty {e : Expr} {file : FileId} {τ : Ty} (h : HasType true e τ) : (tc file e).ty = τ :=
+  ((tc_iff e file τ).2 h).2
+
+theorem wantTy_nil {want : Ty} {c : Cls} {e : FExpr} (h : Typed e) :
+    wantTy want c e = [] ↔ HasType true e.2 want := by
   unfold wantTy
   constructor
   · intro h'
     split at h'
-    · rename_i ht; exact (tc_iff e want).1 ⟨h.1, h.2, ht⟩
+    · rename_i ht; exact (tc_iff e.2 e.1 want).1 ⟨h, ht⟩
     · simp at h'
   · intro h'
-    have := ((tc_iff e want).2 h').2.2
-    simp [this]
+    simp [hasType_ty h']
 
-theorem passedArgs_ok : ∀ (i : Nat) (ts : List (Ty × Loc)) (gs : List Expr), ts.length = gs.length →
-    (∀ g ∈ gs, Typed g) →
-    (((passedArgs i ts gs).errs = [] ∧ (passedArgs i ts gs).crash = none) ↔ PassedArgsOk ts gs)
+theorem tcAll_nil : ∀ (es : List FExpr), tcAll es = [] ↔ ∀ e ∈ es, Typed e
+  | [] => by simp [tcAll]
+  | e :: es => by simp [tcAll, tcAll_nil es, Typed]
+
+theorem flatMap_nil {α β} {l : List α} {f : α → List β} : l.flatMap f = [] ↔ ∀ x ∈ l, f x = [] := by
+  induction l with
+  | nil => simp
+  | cons a l ih => simp [List.flatMap_cons, ih]
+
+/-- `annotate_types` is silent iff every expression is typed and no parameter is an array -/
+theorem annotate_nil (m : Module) :
+    annotate m = [] ↔ (∀ e ∈ m.exprs, Typed e) ∧ ∀ p ∈ m.params, p.pty ≠ .array := by
+  simp only [annotate, List.append_eq_nil_iff, tcAll_nil, flatMap_nil]
+  constructor
+  · rintro ⟨h1, h2⟩
+    refine ⟨h1, fun p hp hpa => ?_⟩
+    have := h2 p hp; simp [hpa] at this
+  · rintro ⟨h1, h2⟩
+    refine ⟨h1, fun p hp => ?_⟩
+    simp [h2 p hp]
+
+theorem paramAll_ok : ∀ (ps : List Param),
+    (((paramAll ps).errs = [] ∧ (paramAll ps).crash = none) ↔ ∀ p ∈ ps, p.ty = .int ∨ ∃ n, p.ty = .enum n)
+  | [] => by simp [paramAll]
+  | p :: ps => by
+    have ih := paramAll_ok ps
+    simp only [paramAll, PassRes.app, List.append_eq_nil_iff, orCrash_none, List.mem_cons,
+      forall_eq_or_imp]
+    rw [← ih]
+    have h1 : ((paramOne p).errs = [] ∧ (paramOne p).crash = none) ↔ (p.ty = .int ∨ ∃ n, p.ty = .enum n) := by
+      unfold paramOne
+      cases hty : p.ty <;> simp
+    rw [← h1]
+    constructor
+    · rintro ⟨⟨a, b⟩, c, d⟩; exact ⟨⟨a, c⟩, b, d⟩
+    · rintro ⟨⟨a, c⟩, b, d⟩; exact ⟨⟨a, b⟩, c, d⟩
+
+theorem paramAll_crash : ∀ (ps : List Param), (∀ p ∈ ps, p.pty ≠ .array) → (paramAll ps).crash = none
+  | [], _ => by simp [paramAll]
+  | p :: ps, h => by
+    have ih := paramAll_crash ps (fun q hq => h q (by simp [hq]))
+    have hp := h p (by simp)
+    simp only [paramAll, PassRes.app, orCrash_none, ih, and_true]
+    unfold paramOne Param.ty
+    cases hpt : p.pty with
+    | array => exact absurd hpt hp
+    | atomic t => cases t <;> simp [DTy.toTy]
+
+theorem passedArgs_ok (p : Passed) : ∀ (i : Nat) (ts : List (Ty × Loc)) (gs : List Expr),
+    ts.length = gs.length → (∀ g ∈ gs, Typed (p.file, g)) →
+    (((passedArgs p i ts gs).errs = [] ∧ (passedArgs p i ts gs).crash = none) ↔ PassedArgsOk true ts gs)
   | _, [], [], _, _ => by simp [passedArgs, PassedArgsOk]
   | _, [], _ :: _, h, _ => by simp at h
   | _, _ :: _, [], h, _ => by simp at h
   | i, (t, pl) :: ts, g :: gs, h, ht => by
-    have ih := passedArgs_ok (i + 1) ts gs (by simpa using h) (fun x hx => ht x (by simp [hx]))
-    have hg := ht g (by simp)
+    have ih := passedArgs_ok p (i + 1) ts gs (by simpa using h) (fun x hx => ht x (by simp [hx]))
+    have hg : Typed (p.file, g) := ht g (by simp)
     simp only [passedArgs, PassedArgsOk]
     by_cases hv : t.isValue = true
     · simp only [hv, Bool.not_true, Bool.false_eq_true, if_false]
-      by_cases hs : sameWhich (tc g).ty t = true
+      by_cases hs : (tc p.file g).ty = t
       · simp only [hs, if_true, ih]
         constructor
-        · intro h'; exact ⟨.inr ⟨_, (tc_iff g _).1 ⟨hg.1, hg.2, rfl⟩, hs⟩, h'⟩
+        · intro h'; exact ⟨.inr (hs ▸ typed_hasType hg), h'⟩
         · intro h'; exact h'.2
-      · simp only [hs, Bool.false_eq_true, if_false]
-        have hno : ¬ ∃ τ, HasType true g τ ∧ sameWhich τ t = true := by
-          rintro ⟨τ, h1, h2⟩
-          have := ((tc_iff g τ).2 h1).2.2
-          rw [this] at hs; exact hs h2
+      · simp only [hs, if_false]
+        have hno : ¬ HasType true g t := fun h1 => hs (hasType_ty h1)
         split <;> simp_all
     · simp only [hv, Bool.not_false, if_true, ih]
       simp at hv
       simp
 
-theorem passedOne_ok (p : Passed) (ht : ∀ g ∈ p.given, Typed g) :
-    ((passedOne p).errs = [] ∧ (passedOne p).crash = none) ↔ PassedArgsOk p.expected p.given := by
+theorem passedArgs_crash (p : Passed) : ∀ (i : Nat) (ts : List (Ty × Loc)) (gs : List Expr),
+    (∀ g ∈ gs, Typed (p.file, g)) → (passedArgs p i ts gs).crash = none
+  | _, [], _, _ => by simp [passedArgs]
+  | _, _ :: _, [], _ => by simp [passedArgs]
+  | i, (t, pl) :: ts, g :: gs, ht => by
+    have ih := passedArgs_crash p (i + 1) ts gs (fun x hx => ht x (by simp [hx]))
+    have hg : Typed (p.file, g) := ht g (by simp)
+    have hne : (tc p.file g).ty ≠ .none := fun h => tc_none_err g p.file h hg
+    simp only [passedArgs]
+    repeat' split
+    all_goals simp_all
+
+theorem passedOne_ok (p : Passed) (ht : ∀ g ∈ p.given, Typed (p.file, g)) :
+    ((passedOne p).errs = [] ∧ (passedOne p).crash = none) ↔ PassedArgsOk true p.expected p.given := by
   unfold passedOne
   by_cases hl : p.expected.length = p.given.length
   · simp only [hl, ne_eq, not_true_eq_false, if_false]
-    exact passedArgs_ok 0 _ _ hl ht
+    exact passedArgs_ok p 0 _ _ hl ht
   · simp only [ne_eq, hl, not_false_eq_true, if_true]
     constructor
     · intro h; simp at h
@@ -95,8 +170,9 @@ theorem passedOne_ok (p : Passed) (ht : ∀ g ∈ p.given, Typed g) :
         | nil => simp [PassedArgsOk] at h
         | cons g gs => exact ih gs (by simpa using hl) h.2
 
-theorem passedAll_ok : ∀ (ps : List Passed), (∀ p ∈ ps, ∀ g ∈ p.given, Typed g) →
-    (((passedAll ps).errs = [] ∧ (passedAll ps).crash = none) ↔ ∀ p ∈ ps, PassedArgsOk p.expected p.given)
+theorem passedAll_ok : ∀ (ps : List Passed), (∀ p ∈ ps, ∀ g ∈ p.given, Typed (p.file, g)) →
+    (((passedAll ps).errs = [] ∧ (passedAll ps).crash = none) ↔
+      ∀ p ∈ ps, PassedArgsOk true p.expected p.given)
   | [], _ => by simp [passedAll]
   | p :: ps, ht => by
     have ih := passedAll_ok ps (fun q hq => ht q (by simp [hq]))
@@ -107,44 +183,228 @@ theorem passedAll_ok : ∀ (ps : List Passed), (∀ p ∈ ps, ∀ g ∈ p.given,
     · rintro ⟨⟨a, b⟩, c, d⟩; exact ⟨⟨a, c⟩, b, d⟩
     · rintro ⟨⟨a, c⟩, b, d⟩; exact ⟨⟨a, b⟩, c, d⟩
 
-theorem flatMap_nil {α β} {l : List α} {f : α → List β} : l.flatMap f = [] ↔ ∀ x ∈ l, f x = [] := by
-  induction l with
-  | nil => simp
-  | cons a l ih => simp [List.flatMap_cons, ih]
+theorem passedAll_crash : ∀ (ps : List Passed), (∀ p ∈ ps, ∀ g ∈ p.given, Typed (p.file, g)) →
+    (passedAll ps).crash = none
+  | [], _ => by simp [passedAll]
+  | p :: ps, ht => by
+    have ih := passedAll_crash ps (fun q hq => ht q (by simp [hq]))
+    simp only [passedAll, PassRes.app, orCrash_none, ih, and_true]
+    unfold passedOne
+    split
+    · rfl
+    · exact passedArgs_crash p 0 _ _ (ht p (by simp))
+
+theorem enumValueOk_iff {e : FExpr} (h : Typed e) :
+    enumValueOk (tc e.1 e.2).ty = true ↔
+      (HasType true e.2 .int ∨ ((true : Bool) = true ∧ ∃ n, HasType true e.2 (.enum n))) := by
+  have ht := typed_hasType h
+  constructor
+  · intro h'
+    cases hty : (tc e.1 e.2).ty <;> simp [hty, enumValueOk] at h'
+    · exact .inl (hty ▸ ht)
+    · exact .inr ⟨rfl, _, hty ▸ ht⟩
+  · rintro (h' | ⟨_, n, h'⟩) <;> simp [hasType_ty h', enumValueOk]
+
+structure InspTyped (m : Module) : Prop where
+  locations : ∀ p ∈ m.locations, Typed (p.1, p.2.1) ∧ Typed (p.1, p.2.2)
+  arrays : ∀ a ∈ m.arrays, Typed a
+  conds : ∀ a ∈ m.conds, Typed a
+  enumValues : ∀ a ∈ m.enumValues, Typed a
+  passed : ∀ p ∈ m.passed, ∀ g ∈ p.given, Typed (p.file, g)
+
+theorem inspTyped_of (m : Module) (ht : ∀ e ∈ inspected m, Typed e) : InspTyped m := by
+  refine ⟨fun p hp => ⟨ht _ ?_, ht _ ?_⟩, fun a ha => ht _ ?_, fun a ha => ht _ ?_,
+    fun a ha => ht _ ?_, fun p hp g hg => ht _ ?_⟩
+  all_goals simp only [inspected, List.mem_append, List.mem_flatMap, List.mem_map]
+  · exact .inl (.inl (.inl (.inl ⟨p, hp, by simp⟩)))
+  · exact .inl (.inl (.inl (.inl ⟨p, hp, by simp⟩)))
+  · exact .inl (.inl (.inl (.inr ha)))
+  · exact .inl (.inl (.inr ha))
+  · exact .inl (.inr ha)
+  · exact .inr ⟨p, hp, g, hg, rfl⟩
 
 theorem checkTypes_ok (m : Module) (ht : ∀ e ∈ inspected m, Typed e) :
-    ((checkTypes m).errs = [] ∧ (checkTypes m).crash = none) ↔ PositionsOk m := by
-  have htl : ∀ p ∈ m.locations, Typed p.1 ∧ Typed p.2 := fun p hp =>
-    ⟨ht _ (by simp only [inspected, List.mem_append, List.mem_flatMap]; exact .inl (.inl (.inl ⟨p, hp, by simp⟩))),
-     ht _ (by simp only [inspected, List.mem_append, List.mem_flatMap]; exact .inl (.inl (.inl ⟨p, hp, by simp⟩)))⟩
-  have hta : ∀ a ∈ m.arrays, ∀ s ∈ subexprs a, Typed s := fun a ha s hs =>
-    ht _ (by simp only [inspected, List.mem_append, List.mem_flatMap]; exact .inl (.inl (.inr ⟨a, ha, hs⟩)))
-  have htc : ∀ c ∈ m.conds, Typed c := fun c hc =>
-    ht _ (by simp only [inspected, List.mem_append]; exact .inl (.inr hc))
-  have htp : ∀ p ∈ m.passed, ∀ g ∈ p.given, Typed g := fun p hp g hg =>
-    ht _ (by simp only [inspected, List.mem_append, List.mem_flatMap]; exact .inr ⟨p, hp, hg⟩)
-  have hp := passedAll_ok m.passed htp
+    ((checkTypes m).errs = [] ∧ (checkTypes m).crash = none) ↔ PositionsOk true m := by
+  have it := inspTyped_of m ht
+  have hp := passedAll_ok m.passed it.passed
+  have hq := paramAll_ok m.params
   simp only [checkTypes, PassRes.app, List.append_eq_nil_iff, orCrash_none, true_and, flatMap_nil, and_assoc]
   constructor
-  · rintro ⟨h1, h2, h3, h4, h5, h6⟩
-    refine ⟨?_, ?_, ?_, ?_, hp.1 ⟨h5, h6⟩⟩
+  · rintro ⟨h1, h2, h3, h4, h5, h6, h7, h8⟩
+    refine ⟨?_, ?_, ?_, ?_, hq.1 ⟨h5, h7⟩, hp.1 ⟨h6, h8⟩⟩
     · intro p hp'
       have := h1 p hp'
-      exact ⟨(wantTy_nil (htl p hp').1).1 this.1, (wantTy_nil (htl p hp').2).1 this.2⟩
-    · intro a ha s hs
-      exact (wantTy_nil (hta a ha s hs)).1 (h2 a ha s hs)
-    · intro c hc; exact (wantTy_nil (htc c hc)).1 (h3 c hc)
-    · intro p hp'
-      have := h4 p hp'
-      cases hty : p.ty <;> simp_all
+      exact ⟨(wantTy_nil (it.locations p hp').1).1 this.1, (wantTy_nil (it.locations p hp').2).1 this.2⟩
+    · intro a ha; exact (wantTy_nil (it.arrays a ha)).1 (h2 a ha)
+    · intro c hc; exact (wantTy_nil (it.conds c hc)).1 (h3 c hc)
+    · intro v hv
+      have := h4 v hv
+      apply (enumValueOk_iff (it.enumValues v hv)).1
+      cases hok : enumValueOk (tc v.1 v.2).ty
+      · simp [hok] at this
+      · rfl
   · intro h
-    obtain ⟨h5, h6⟩ := hp.2 h.passed
-    refine ⟨?_, ?_, ?_, ?_, h5, h6⟩
+    obtain ⟨h5, h7⟩ := hq.2 h.params
+    obtain ⟨h6, h8⟩ := hp.2 h.passed
+    refine ⟨?_, ?_, ?_, ?_, h5, h6, h7, h8⟩
     · intro p hp'
-      exact ⟨(wantTy_nil (htl p hp').1).2 (h.locations p hp').1, (wantTy_nil (htl p hp').2).2 (h.locations p hp').2⟩
-    · intro a ha s hs; exact (wantTy_nil (hta a ha s hs)).2 (h.arrays a ha s hs)
-    · intro c hc; exact (wantTy_nil (htc c hc)).2 (h.conds c hc)
-    · intro p hp'
-      rcases h.params p hp' with h' | ⟨n, h'⟩ <;> simp [h']
+      exact ⟨(wantTy_nil (it.locations p hp').1).2 (h.locations p hp').1,
+        (wantTy_nil (it.locations p hp').2).2 (h.locations p hp').2⟩
+    · intro a ha; exact (wantTy_nil (it.arrays a ha)).2 (h.arrays a ha)
+    · intro c hc; exact (wantTy_nil (it.conds c hc)).2 (h.conds c hc)
+    · intro v hv
+      simp [(enumValueOk_iff (it.enumValues v hv)).2 (h.enumValues v hv)]
+
+theorem checkTypes_crash (m : Module) (ht : ∀ e ∈ inspected m, Typed e)
+    (hp : ∀ p ∈ m.params, p.pty ≠ .array) : (checkTypes m).crash = none := by
+  have it := inspTyped_of m ht
+  simp only [checkTypes, PassRes.app, orCrash_none, true_and]
+  exact ⟨paramAll_crash m.params hp, passedAll_crash m.passed it.passed⟩
+
+/-! ### attribute values -/
+
+/-- what each kind of attribute demands of its value -/
+def AttrOk (a : Attr) : Prop :=
+  match a.kind, a.val with
+  | .boolConst, .expr e => HasType true e .bool ∧ closed e = true
+  | .bool, .expr e => HasType true e .bool
+  | .intConst, .expr e => HasType true e .int ∧ closed e = true
+  | .strList, .str v => v = true
+  | .backEnds, .str v => v = true
+  | _, _ => False
+
+theorem attrOne_ok (a : Attr) (ht : ∀ e, a.val = .expr e → Typed (a.file, e)) :
+    ((attrOne a).errs = [] ∧ (attrOne a).crash = none) ↔ AttrOk a := by
+  rcases a with ⟨file, l, k, sg, v⟩
+  cases v with
+  | str s => cases k <;> simp [attrOne, AttrOk]
+  | expr e =>
+    have hte : Typed (file, e) := ht e rfl
+    have hne : (tc file e).ty ≠ .none := fun h => tc_none_err e file h hte
+    have hh := typed_hasType hte
+    simp only at hh
+    cases k <;> simp only [attrOne, AttrOk, hne, if_false]
+    · constructor
+      · intro h
+        by_cases hb : (tc file e).ty = .bool
+        · rw [hb] at hh; cases hc : closed e <;> simp_all
+        · simp_all
+      · rintro ⟨h1, h2⟩
+        simp [hasType_ty h1, h2]
+    · constructor
+      · intro h
+        by_cases hb : (tc file e).ty = .bool
+        · rw [hb] at hh; exact hh
+        · simp_all
+      · intro h1
+        simp [hasType_ty h1]
+    · constructor
+      · intro h
+        by_cases hb : (tc file e).ty = .int
+        · rw [hb] at hh; cases hc : closed e <;> simp_all
+        · simp_all
+      · rintro ⟨h1, h2⟩
+        simp [hasType_ty h1, h2]
+    · simp
+    · simp
+
+theorem attrOne_crash (a : Attr) (ht : ∀ e, a.val = .expr e → Typed (a.file, e)) :
+    (attrOne a).crash = none := by
+  rcases a with ⟨file, l, k, sg, v⟩
+  cases v with
+  | str s => cases k <;> simp [attrOne]
+  | expr e =>
+    have hte : Typed (file, e) := ht e rfl
+    have hne : (tc file e).ty ≠ .none := fun h => tc_none_err e file h hte
+    cases k <;> simp only [attrOne, hne, if_false] <;> (try split) <;> rfl
+
+theorem attrAll_ok : ∀ (as : List Attr), (∀ e ∈ attrExprs as, Typed e) →
+    (((attrAll as).errs = [] ∧ (attrAll as).crash = none) ↔ ∀ a ∈ as, AttrOk a)
+  | [], _ => by simp [attrAll]
+  | a :: as, ht => by
+    have ih := attrAll_ok as (fun e he => ht e (by simp [attrExprs, he]))
+    have h1 := attrOne_ok a (fun e he => ht (a.file, e) (by simp [attrExprs, he]))
+    simp only [attrAll, PassRes.app, List.append_eq_nil_iff, orCrash_none, List.mem_cons, forall_eq_or_imp]
+    rw [← h1, ← ih]
+    constructor
+    · rintro ⟨⟨a, b⟩, c, d⟩; exact ⟨⟨a, c⟩, b, d⟩
+    · rintro ⟨⟨a, c⟩, b, d⟩; exact ⟨⟨a, b⟩, c, d⟩
+
+theorem attrAll_crash : ∀ (as : List Attr), (∀ e ∈ attrExprs as, Typed e) → (attrAll as).crash = none
+  | [], _ => by simp [attrAll]
+  | a :: as, ht => by
+    have ih := attrAll_crash as (fun e he => ht e (by simp [attrExprs, he]))
+    have h1 := attrOne_crash a (fun e he => ht (a.file, e) (by simp [attrExprs, he]))
+    simp [attrAll, PassRes.app, orCrash_none, ih, h1]
+
+/-! ### the pipeline -/
+
+theorem filter_split_nil {l : List Err} :
+    (l.filter (fun e => !e.hidden) = [] ∧ l.filter (fun e => e.hidden) = []) ↔ l = [] := by
+  induction l with
+  | nil => simp
+  | cons a l ih => cases h : a.hidden <;> simp [h]
+
+/-- `run` accepts iff every pass is silent and nothing raises -/
+theorem run_accepted (m : Module) :
+    run m = .accepted ↔
+      annotate m = [] ∧ ((checkTypes m).errs = [] ∧ (checkTypes m).crash = none) ∧
+      ((attrAll m.attrs).errs = [] ∧ (attrAll m.attrs).crash = none) ∧ attrLate m.attrs = none := by
+  unfold run
+  simp only
+  constructor
+  · intro h
+    split at h; · cases h
+    split at h; · cases h
+    split at h; · cases h
+    split at h; · cases h
+    split at h; · cases h
+    split at h; · cases h
+    split at h; · cases h
+    rename_i h1 _ hc h2 _ ht h3 _ hl h4
+    simp only [ne_eq, Decidable.not_not, List.filter_append, List.append_eq_nil_iff] at h1 h2 h3 h4
+    exact ⟨filter_split_nil.1 ⟨h1, h4.1.1⟩, ⟨filter_split_nil.1 ⟨h2, h4.1.2⟩, hc⟩,
+      ⟨filter_split_nil.1 ⟨h3, h4.2⟩, ht⟩, hl⟩
+  · rintro ⟨h1, ⟨h2, hc⟩, ⟨h3, ht⟩, hl⟩
+    simp [h1, h2, hc, h3, ht, hl]
+
+/-- `run` raises only the open `is_signed` finding, or (through one of the three unguarded
+`.type.which_type` reads) after `annotate_types` reported errors all of which are hidden -/
+theorem run_crashed (m : Module) (wf : m.wf) (k : Crash) (h : run m = .crashed k) :
+    k = .attrSignedNotLiteral ∨ (annotate m ≠ [] ∧ ∀ er ∈ annotate m, er.hidden = true) := by
+  by_cases ha : annotate m = []
+  · left
+    have ⟨hte, hpa⟩ := (annotate_nil m).1 ha
+    have hti : ∀ e ∈ inspected m, Typed e := fun e he => hte e (wf e (by simp [he]))
+    have hta : ∀ e ∈ attrExprs m.attrs, Typed e := fun e he => hte e (wf e (by simp [he]))
+    have c1 := checkTypes_crash m hti hpa
+    have c2 := attrAll_crash m.attrs hta
+    unfold run at h
+    simp only [ha, c1, c2] at h
+    revert h
+    simp only [List.filter_nil, ne_eq, not_true_eq_false, if_false]
+    repeat' split
+    all_goals (intro h; try cases h)
+    rename_i hl
+    revert hl
+    generalize m.attrs = as
+    intro hl
+    induction as with
+    | nil => simp [attrLate] at hl
+    | cons a as ih =>
+      simp only [attrLate] at hl
+      split at hl
+      · exact ih hl
+      · cases hl; rfl
+      · exact ih hl
+  · right
+    refine ⟨ha, ?_⟩
+    unfold run at h
+    simp only at h
+    split at h; · cases h
+    rename_i h1
+    simp only [ne_eq, Decidable.not_not, List.filter_eq_nil_iff] at h1
+    intro er her
+    simpa using h1 er her
 
 end Emboss.Types
